@@ -126,6 +126,8 @@ def gen_case(seed, i):
                 kind = "to_symlink_outside"                     # in a -S report a link is a legitimate member: a member
                                                                 # that BECOMES a link is told by the link's own time only
         ed = {"kind": kind, "p": tgt, "uid": "e%d-%d" % (i, j)}
+        if kind == "to_symlink_outside" and "-S" not in gflags:
+            ed["old_link"] = True
         if kind == "to_symlink_member":
             ed["other"] = rng.choice([x for x in grp if x != tgt])
         where = rng.choice(["group", "group", "between", "dedupe"])
@@ -174,6 +176,8 @@ def gen_cases(tier, seed):
                                   "at": {"where": "group", "kind": kind, "path": path, "ord": ord_}}
                             if ek == "to_symlink_member":
                                 ed["other"] = [x for x in grp if x != tgt][0]
+                            if ek == "to_symlink_outside":
+                                ed["old_link"] = True
                             yield dict(base, i=idx, edits=[ed], op=op, fmt="json" if idx % 2 else "default")
 
 
